@@ -55,6 +55,16 @@ class UserErr(Exception):
         self.payload = payload
 
 
+class UserGroup(ExceptionGroup):
+    def __new__(cls, payload):
+        self = super().__new__(cls, str(payload), [UserErr(payload), ValueError('second member')])
+        self.payload = payload
+        return self
+
+    def derive(self, excs):
+        return ExceptionGroup(self.message, excs)
+
+
 def exc_name(e: BaseException) -> str:
     table = {
         eerrors.ScheduledRunInThePastError: 'EPast', eerrors.JobAlreadyFinishedError: 'EAlreadyFinished',
@@ -115,6 +125,8 @@ class Runtime:
         self.fexec = {tuple(x) for x in case.get('fexec', [])}
         self.fcb = {tuple(x) for x in case.get('fcb', [])}
         self.raised: list = []                    # payloads of injected failures that really fired
+        self.fns: dict = {}
+        self.group_exc = bool(case.get('group_exc'))
         self.shared_exc = bool(case.get('shared_exc'))
         self._exc_cache: dict = {}
         self.ntags = 0
@@ -125,6 +137,9 @@ class Runtime:
     def exc(self, payload: list) -> UserErr:
         # user code may raise ONE exception object again and again (a cached error, a failed future that is awaited
         # repeatedly): every raise still has to reach the handler
+        if self.group_exc:
+            # an ExceptionGroup with two members (what a TaskGroup raises): it is ONE exception for the handler
+            return UserGroup(payload)
         if not self.shared_exc:
             return UserErr(payload)
         return self._exc_cache.setdefault(json.dumps(payload), UserErr(payload))
@@ -149,10 +164,14 @@ class Runtime:
             raise self.exc(['cb', cb])
 
     def handler(self, e: Exception) -> None:
-        if isinstance(e, UserErr):
+        if isinstance(e, (UserErr, UserGroup)):
             self.ev.append(['handler', e.payload])
         else:
             self.ev.append(['handler', ['other', type(e).__name__]])
+
+    def dispatch(self, what: str, *, tag: int) -> None:
+        assert what == 'job'
+        self.fns[tag]()
 
     def make_callable(self, tag: int, t_req):
         cell = {'t_req': t_req}
@@ -248,18 +267,22 @@ async def _run(case, clock, loop, rt: Runtime, concrete_ops: list, obs: list) ->
                 idx = len(rt.jobs)
                 rt.tag2idx[tag] = idx
                 key = op[2] if kind != 'at' else op[1]
-                fn, cell = rt.make_callable(tag, op[1] if kind == 'once' else None)
+                inner, cell = rt.make_callable(tag, op[1] if kind == 'once' else None)
+                rt.fns[tag] = inner
+                # every job gets the SAME callable and the same positional argument; the jobs differ in the VALUE of a keyword
+                # argument only (what a user does with one handler function for many devices)
+                fn, fargs, fkw = rt.dispatch, ('job',), {'tag': tag}
                 ctrl = None
                 state = None
                 try:
                     if kind == 'once':
-                        ctrl = builder.once(Instant.from_timestamp_nanos(op[1]), fn, job_id=key)
+                        ctrl = builder.once(Instant.from_timestamp_nanos(op[1]), fn, *fargs, job_id=key, **fkw)
                     elif kind == 'countdown':
-                        ctrl = builder.countdown(TimeDelta(nanoseconds=op[1]), fn, job_id=key)
+                        ctrl = builder.countdown(TimeDelta(nanoseconds=op[1]), fn, *fargs, job_id=key, **fkw)
                     else:
                         state = {'j': idx, 'k': 0}
                         trig = TriggerObject(ScriptProducer({'start': op[2], 'iv': op[3], 'fail': set(op[4])}, state, rt))
-                        ctrl = builder.at(trig, fn, job_id=key)
+                        ctrl = builder.at(trig, fn, *fargs, job_id=key, **fkw)
                 except Exception as e:  # noqa: BLE001
                     outcome = exc_name(e)
                     allocated = outcome not in ('EKeyError', 'EValueError')
